@@ -153,6 +153,16 @@ func c14OneNode(t *rapid.T, st *Store, ls *ipld.LinkSystem, ev *Evid) *c14Kept {
 	case "pb-garbage":
 		m.HasData = true
 		m.Garbage = rapid.SampledFrom([][]byte{{0xff, 0xff}, {0x08}, {0x12, 0x05, 0x01}, {0x0b}}).Draw(t, "garbage")
+		if rapid.Bool().Draw(t, "validPrefix") {
+			// a message that starts like a valid one - a type, then perhaps inline data of up to a few hundred KiB - and is
+			// cut off or corrupted at its very end: undecodable as a whole by any protobuf decoder, however large it is
+			g := wVarint(wTag(nil, 1, 0), rapid.SampledFrom([]uint64{0, 1, 2, 2, 3, 4, 5}).Draw(t, "prefixType"))
+			if l := rapid.SampledFrom([]int{-1, 0, 100, 65535, 65536, 70000, 300000}).Draw(t, "prefixData"); l >= 0 {
+				g = wVarint(wTag(g, 2, 2), uint64(l))
+				g = append(g, lcgBytes(l, 3, 0)...)
+			}
+			m.Garbage = append(g, rapid.SampledFrom([][]byte{{0x18}, {0x00, 0x01}, {0x12, 0x7f, 0x01}, {0x20, 0xff}, {0x18, 0x80}}).Draw(t, "brokenTail")...)
+		}
 	default:
 		m.HasData = true
 		typ = rapid.SampledFrom([]uint64{0, 0, 0, 1, 1, 1, 2, 2, 2, 2, 3, 3, 4, 4, 5, 5, 5, 5, 6, 7, 99, 1 << 31, 1 << 32, 1<<32 | 2, 1<<32 | 3, 1<<40 | 4, 1<<33 | 1, 1<<32 | 5, 1 << 63, 1<<63 | 2, ^uint64(0)}).Draw(t, "type")
